@@ -3,12 +3,12 @@
 (* JSON lines.  gen/gen_universe.py turns this into harness/src/universe.rs *)
 (* and the harness' `recipes` command compares the predictions with the    *)
 (* real size_of / align_of / max_size_of / IS_ZERO_COPY / hash preimages.   *)
-EXTENDS Universe, Json
+EXTENDS Derive, Json
 
 CONSTANT TypeSet
 VARIABLE x
 
-TS == TypesOf(TypeSet) \cup SerOnlyOf(TypeSet) \cup {Norm(t) : t \in SerOnlyOf(TypeSet)}
+TS == TypesOf(TypeSet) \cup SerOnlyOf(TypeSet) \cup {Norm(t) : t \in SerOnlyOf(TypeSet)} \cup HashUniverse
 
 TypeInfo(t) ==
   [rec |-> "type", key |-> Key(t), rkey |-> Key(Norm(t)), desc |-> t,
@@ -18,9 +18,9 @@ TypeInfo(t) ==
    align |-> IF IsZC(t) THEN AlignOf(t) ELSE -1,
    unit |-> IF IsZeroCopyTrait(t) THEN Unit(t) ELSE -1,
    th |-> TypeHashOf(t), ah |-> AlignHashOf(t),
-   dshape |-> DeserShape(Norm(t)), nvals |-> Len(Values(t))]
+   dshape |-> DeserShape(Norm(t)), nvals |-> Len(Values(t)), erased |-> Erase(Norm(t))]
 
-ASSUME PrintT(ToJson([rec |-> "defs", defs |-> CoreDefs]))
+ASSUME PrintT(ToJson([rec |-> "defs", defs |-> AllDefs]))
 ASSUME \A t \in TS : PrintT(ToJson(TypeInfo(t)))
 
 Init == x = 0
